@@ -212,8 +212,6 @@ def eval_pair(case):
             and not (layers[0]["first"] and not layers[0]["titled"]):
         # the constant line shift: position (1) + number of lines before the body
         shift = 1 + len(G.opt_lines(layers[0]))
-        if layers[0]["k"] == "c" and "".join(l + "\n" for l in G.opt_lines(layers[0]) + X).startswith(":::"):
-            shift += 1          # render_colon_fence prefixes "\n" (its offset is C04's matter)
         inner_nodes, _ = unwrap(dw, layers)
         la = [getattr(n, "line", None) for n in inner_nodes]
         lb = [getattr(n, "line", None) for n in dp.children]
@@ -399,8 +397,7 @@ def model_tests(ctx):
             return (dec_str(f[0]), dec_str(f[1]), dec_ostr(f[2])) == want()
         reqs.append("info\t" + enc_str(s))
         checks.append(("info", s, chk, want))
-    # parse_directive_text for the admonition classes (contents whose last line is not blank:
-    # the trailing-blank-line offset defect of the unchanged code is C08's and outside this model)
+    # parse_directive_text for the admonition classes
     for _ in range(ctx.budget(1500, 20000, 20000)):
         r = rng.random()
         if r < 0.5:
@@ -411,8 +408,6 @@ def model_tests(ctx):
             titled = layer["titled"]
         else:
             lines = ["".join(rng.choice(":- ab") for _ in range(rng.randint(0, 5))) for _ in range(rng.randint(0, 5))]
-            while lines and not lines[-1].strip():
-                lines.pop()
             first = rng.choice(["", "", "t", " two words ", "a b c"])
             titled = rng.random() < 0.4
         content = "".join(l + "\n" for l in lines)
@@ -684,7 +679,7 @@ def search(ctx):
         ctx.count("heading-offset")
         check_case(ctx, {"heading_offset": True, "k": k})
     rng = ctx.rng
-    n = ctx.budget(700, 9000, 20000)
+    n = ctx.budget(700, 9000, 5000)
     nfail = 0
     for i in range(n):
         force = None if i % 4 else ("adm", "include", "subst")[(i // 4) % 3]
